@@ -1301,8 +1301,11 @@ def merge_changes(change_chunks, doc, tag_type='ins'):
             # with content here, i.e. more than one tag.
             name = chunk.split('>', 1)[0].split(None, 1)[0].strip('<>/')
             # Also treat `a` tags as block in this context, because they *can*
-            # contain block elements, like `h1`, etc.
-            is_block = name in block_level_tags or name == 'a'
+            # contain block elements, like `h1`, etc. The same goes for
+            # `button`: it must never be split in two around a change (that
+            # would show two controls where the page has one, the second
+            # without its attributes), so changes go inside it.
+            is_block = name in block_level_tags or name in ('a', 'button')
 
             if chunk[1] == '/':
                 if depth > 0:
@@ -1568,8 +1571,11 @@ def merge_change_groups(change_chunks, doc, tag_type=None):
             # with content here, i.e. more than one tag.
             name = chunk.split('>', 1)[0].split(None, 1)[0].strip('<>/')
             # Also treat `a` tags as block in this context, because they *can*
-            # contain block elements, like `h1`, etc.
-            is_block = name in block_level_tags or name == 'a'
+            # contain block elements, like `h1`, etc. The same goes for
+            # `button`: it must never be split in two around a change (that
+            # would show two controls where the page has one, the second
+            # without its attributes), so changes go inside it.
+            is_block = name in block_level_tags or name in ('a', 'button')
 
             if chunk[1] == '/':
                 if depth > 0:
